@@ -165,6 +165,8 @@ class InvCase:
             self.depth = ch.choose([2, 2, 3], "i.factory.depth")
         self.with_filters = ch.chance(0.6, "i.filters")
         self.second_target = ch.chance(0.3, "i.second")
+        # which instance the invariant looks at (filters are per instance: what holds for T1 need not hold for T2)
+        self.inv_target = ch.pick(2, "i.invtarget") if self.second_target else 0
         # filters (in terms of names resolved later): lists of sender constants / 'T1','T2' / selectors
         self.f = dict(target_senders=[], exclude_senders=[], target_contracts=[], exclude_contracts=[],
                       target_selectors={}, exclude_selectors={})
@@ -223,7 +225,8 @@ class InvCase:
             a.op("STOP")
             a.mark(tag).raw(tinit)
 
-        def read_target(a, getter, t=0):
+        def read_target(a, getter, t=None):
+            t = self.inv_target if t is None else t
             sel = int.from_bytes(A.selector(getter), "big")
             a.push(sel << 224).push(0x300).op("MSTORE")
             a.push(0x20).push(0x320).push(4).push(0x300).push(t).op("SLOAD").push(0xFFFF).op("STATICCALL").op("POP")
@@ -392,7 +395,7 @@ class InvCase:
 
     def describe(self):
         return dict(muts=self.muts, inv=self.inv, k=self.k, depth=self.depth, filters=self.f if self.with_filters else None,
-                    second_target=self.second_target)
+                    second_target=self.second_target, inv_target=self.inv_target)
 
 
 class C15Check:
